@@ -116,3 +116,49 @@ Example bq_nontrivial :
   exists s os, brun (new_bq 2 4) [BDeliver (1, 2, [7])%N; BDeliver (1, 2, [8])%N; BRecvBegin; BDeliver (1, 2, [9])%N; BRecvEnd 0; BDeliver (1, 2, [9])%N; BRecvBegin]
                = Some (s, os) /\ os = [BWrote 0; BWrote 1; BGot 0 (1, 2, [7])%N; BRefused; BDone; BWrote 0; BGot 1 (1, 2, [8])%N].
 Proof. eexists. eexists. split; vm_compute; reflexivity. Qed.
+
+(* ---- Close is final, under any interleaving ---- *)
+Definition ClosedEmpty (s : bq) : Prop := b_closed s = true -> b_queue s = [].
+
+Lemma closed_empty_new cap mtu : ClosedEmpty (new_bq cap mtu).
+Proof. unfold ClosedEmpty. cbn. discriminate. Qed.
+
+Lemma bstep_closed_empty s e s' o : ClosedEmpty s -> bstep s e = Some (s', o) -> ClosedEmpty s'.
+Proof.
+  unfold ClosedEmpty, bstep. intros H. destruct e as [m| |b| |].
+  - destruct (Nat.ltb _ _); [intros [= <- _]; exact H|]. destruct (b_closed s) eqn:Ec; [intros [= <- _]; rewrite Ec; exact H|].
+    destruct (b_free s); intros [= <- _]; cbn; [rewrite Ec|]; discriminate.
+  - destruct (b_queue s) as [|[b m] t] eqn:Eq; intros [= <- _]; [rewrite Eq; exact H|]. cbn. intros E. specialize (H E). discriminate.
+  - destruct (existsb _ _); [|discriminate]. intros [= <- _]. cbn. exact H.
+  - intros [= <- _]. cbn. auto.
+  - intros [= <- _]. cbn. auto.
+Qed.
+
+Lemma bstep_stays_closed s e s' o : b_closed s = true -> bstep s e = Some (s', o) -> b_closed s' = true.
+Proof.
+  unfold bstep. intros Ec. destruct e as [m| |b| |].
+  - destruct (Nat.ltb _ _); [intros [= <- _]; exact Ec|]. rewrite Ec. intros [= <- _]. exact Ec.
+  - destruct (b_queue s) as [|[b m] t]; intros [= <- _]; cbn; exact Ec.
+  - destruct (existsb _ _); [|discriminate]. intros [= <- _]. exact Ec.
+  - intros [= <- _]. exact Ec.
+  - intros [= <- _]. reflexivity.
+Qed.
+
+(* after Close: whatever is called, in whatever interleaving with callbacks still running,
+   nothing is accepted and no callback is handed a message *)
+Theorem nothing_after_close evs : forall s s' os, ClosedEmpty s -> b_closed s = true ->
+  brun s evs = Some (s', os) -> forall o, In o os -> match o with BWrote _ | BGot _ _ => False | _ => True end.
+Proof.
+  induction evs as [|e t IH]; intros s s' os Hce Ec; cbn [brun]; [intros [= _ <-] o []|].
+  destruct (bstep s e) as [[s1 o1]|] eqn:E1; [|discriminate].
+  destruct (brun s1 t) as [[s2 os2]|] eqn:E2; [|discriminate]. intros [= _ <-] o [<-|Hin].
+  - unfold bstep in E1. destruct e as [m| |b| |].
+    + destruct (Nat.ltb _ _); [injection E1 as _ <-; exact I|]. rewrite Ec in E1. injection E1 as _ <-. exact I.
+    + rewrite (Hce Ec) in E1. injection E1 as _ <-. exact I.
+    + destruct (existsb _ _); [|discriminate]. injection E1 as _ <-. exact I.
+    + injection E1 as _ <-. exact I.
+    + injection E1 as _ <-. exact I.
+  - eapply (IH s1 s2 os2); eauto.
+    + eapply bstep_closed_empty; eauto.
+    + eapply bstep_stays_closed; eauto.
+Qed.
